@@ -432,3 +432,14 @@ def precision_rule(ctx, run, rule="C05.R9", methods=("forward", "cash")):
         if bad:
             run.fail(Finding(rule, fi.qualname, "; ".join(bad)[:300], "a Python float parameter is rounded to float32 before it meets the sample",
                              file=str(prog.modules[fi.module].path), line=fi.node.lineno))
+
+
+_check_before_ctors = check
+
+
+def check(ctx, run):  # noqa: F811
+    """R10: the criteria keep the risk aversion / level / weight / utility they were created with (the wiring rules read them from the attributes)"""
+    _check_before_ctors(ctx, run)
+    from ..ctors import ctor_rule
+    ctor_rule(ctx, run, "C05.R10", [L + c for c in ("EntropicRiskMeasure", "EntropicLoss", "IsoelasticLoss", "ExpectedShortfall", "QuadraticCVaR", "OCE")], None,
+              "the criterion evaluates the risk measure at another parameter than the one it was created with")
